@@ -5,6 +5,7 @@ use std::collections::{BTreeMap, BTreeSet};
 
 use super::*;
 use crate::ctx::Actor;
+use crate::engine::Outcome;
 
 /// C03: exactly-once delivery against the connection table.
 pub fn conservation(case: &Case, h: &Hist) -> Vec<Violation> {
@@ -438,6 +439,36 @@ pub fn initialisation(case: &Case, h: &Hist) -> Vec<Violation> {
                 }
             }
         }
+    }
+    v
+}
+
+/// C19: after the simulation and every external handle were dropped, every
+/// model, message, reply and handler future has been released exactly once, no
+/// model code ran after the drop returned and nothing owned by the executor
+/// was released later than that.
+pub fn drop_rules(case: &Case, out: &Outcome, h: &Hist) -> Vec<Violation> {
+    let mut v = Vec::new();
+    if out.failure.is_some() || !out.info.as_ref().map(|i| i.completed).unwrap_or(false) {
+        return v; // the common rules report executions that did not reach the end
+    }
+    let timed_out_st = case.cfg.threads <= 1 && h.trace.iter().any(|(_, t)| matches!(t, TraceEv::TimeoutFired));
+    let key = if timed_out_st { "st_timeout" } else if case.cfg.threads <= 1 { "st" } else { "mt" };
+    if !out.live_tokens.is_empty() {
+        let mut kinds: BTreeMap<String, usize> = BTreeMap::new();
+        for (_, k) in &out.live_tokens {
+            *kinds.entry(format!("{:?}", k)).or_insert(0) += 1;
+        }
+        v.push(Violation::keyed("c19_leak", key, format!("after dropping the simulation and all handles {} objects were never released: {:?} (created {})", out.live_tokens.len(), kinds, out.tokens_created)));
+    }
+    if !out.double_drops.is_empty() {
+        v.push(Violation::keyed("c19_double_drop", key, format!("objects released more than once: tokens {:?}", out.double_drops)));
+    }
+    if !out.after_drop.is_empty() {
+        v.push(Violation::keyed("c19_model_code_after_drop", key, format!("model code ran after drop(Simulation) had returned: {:?}", out.after_drop)));
+    }
+    if !out.late_drops.is_empty() {
+        v.push(Violation::keyed("c19_released_after_drop", key, format!("{} models / handler futures were released only after drop(Simulation) had returned", out.late_drops.len())));
     }
     v
 }
